@@ -62,7 +62,7 @@ PROPS = {
         ],
         "gate": {"quick": 60, "thorough": 300},
         "shrink": [],
-        "expected_probes": ["objects", "truncation_offsets_enumerated", "tensor_payload_regions", "payload_hash_confirmed_independently",
+        "expected_probes": ["objects", "roundtrip_into_used_object", "truncation_offsets_enumerated", "tensor_payload_regions", "payload_hash_confirmed_independently",
                             "rejected_by_exception", "rejected_by_stream_state", "wlearner_fitted", "linear_fitted", "gboost_fitted",
                             "gboost_with_weak_learners", "header_flip_rejected", "writer_reported_disk_full"],
         "real": REAL_COMMON + ["every read()/write() member and nano::read/nano::write overload (tensors, parameters, features, configurables, weak learners, models), "
@@ -93,7 +93,7 @@ PROPS = {
         "gate": {"quick": 60, "thorough": 500},
         "shrink": [("inject", 0), ("max_yields", 0), ("spaces", 1), ("spaces", 0), ("folds", 2), ("samples", 6), ("max_evals", 10), ("cores", 2),
                    ("sim_faults", 0), ("p_spurious_ppm", 0), ("p_eagain_ppm", 0)],
-        "expected_probes": ["tune_runs", "tune_with_several_trials", "tuner_direct_runs", "callbacks_overlapped_in_time", "four_or_more_callbacks_in_flight",
+        "expected_probes": ["tune_runs", "tune_with_several_trials", "tuner_direct_runs", "tuner_used_before", "callbacks_overlapped_in_time", "four_or_more_callbacks_in_flight",
                             "callback_exception_propagated", "callback_nonfinite_rejected", "nonfinite_rejected", "budget_overshoot_within_allowance",
                             "rt_futex_blocked", "rt_mutex_contended", "rt_spurious_wake"],
         "real": REAL_COMMON + ["tuner_t::optimize (local-search, surrogate), nano::evaluate / local_search, ml::tune and its internal pool_t, ml::result_t, splitters"],
@@ -188,7 +188,7 @@ PROPS = {
         ],
         "gate": {"quick": 60, "thorough": 500},
         "shrink": [("pool", 2), ("cores", 2), ("sim_faults", 0), ("p_spurious_ppm", 0), ("p_eagain_ppm", 0)],
-        "expected_probes": ["fits_through_the_pool", "brute_force_compared", "fitted_stump", "fitted_hinge", "fitted_affine", "fitted_dense-table", "fitted_dstep-table",
+        "expected_probes": ["fits_through_the_pool", "fit_on_a_learner_fitted_before", "brute_force_compared", "fitted_stump", "fitted_hinge", "fitted_affine", "fitted_dense-table", "fitted_dstep-table",
                             "fitted_kbest-table", "fitted_ksplit-table", "fitted_dtree", "single_feature_clauses", "scale_per_group", "scale_scalar",
                             "merge_merged_something", "depth1_tree_vs_stump", "rt_futex_blocked"],
         "real": REAL_COMMON + ["all 8 weak learners (fit through select_iterator_t / the dataset pool, per-worker caches, min_reduce), predict, split, scale, wlearner::merge"],
